@@ -134,8 +134,11 @@ def fam_default():
                                 Field(5, 'default', ('map', S('i8'), ('struct', inner_w, False))), Field(6, 'default', ('struct', inner_w, False))])
     ot2 = StructDef('DfOutT2', [Field(4, 'default', ('map', S('i8'), ('struct', LEAFD, True))),
                                 Field(5, 'default', ('map', S('i8'), ('struct', LEAFD, False))), Field(6, 'default', ('struct', LEAFD, False))])
-    out.append(pair(ow, ot, 2))
-    out.append(pair(ow2, ot2, 2))
+    p1, p2 = pair(ow, ot, 2), pair(ow2, ot2, 2)
+    for p in (p1, p2):
+        p['params'] = {'decmsg': [{'orders': 2, 'plain': 1}]}   # no trailing bytes / pre-fill variants: the shape space is large already
+    out.append(p1)
+    out.append(p2)
     out.append({'sd': ot, 'kinds': ['codec'], 'params': small})
     out.append({'sd': ot2, 'kinds': ['codec'], 'params': small})
     return out
